@@ -139,7 +139,7 @@ func HandleSelect(deps ServerDeps, conn net.Conn, tag string, parts []string, st
 			SELECT ROW_NUMBER() OVER (ORDER BY uid ASC) as seq_num, flags
 			FROM message_mailbox
 			WHERE mailbox_id = ?
-		) WHERE flags IS NULL OR flags NOT LIKE '%\Seen%'
+		) WHERE flags IS NULL OR (' ' || flags || ' ') NOT LIKE '% \Seen %'
 		ORDER BY seq_num ASC
 		LIMIT 1
 	`
@@ -230,7 +230,7 @@ func HandleClose(deps ServerDeps, conn net.Conn, tag string, state *models.Clien
 	// Query for all messages with \Deleted flag in the current mailbox
 	rows, err := userDB.Query(`
 		SELECT id FROM message_mailbox
-		WHERE mailbox_id = ? AND flags LIKE '%\Deleted%'
+		WHERE mailbox_id = ? AND (' ' || flags || ' ') LIKE '% \Deleted %'
 	`, state.SelectedMailboxID)
 
 	if err == nil {
